@@ -54,64 +54,115 @@ def strip_c(src):
     return "".join(out)
 
 
-TOK = re.compile(r"mutex_lock\s*\(\s*&\s*map_lock\s*\)|mutex_unlock\s*\(\s*&\s*map_lock\s*\)|\bInstancesIndex\b|\bInstances\b|\breturn\b|[{}]")
+LOCK = r"(?:pthread_)?mutex_lock\s*\(\s*&\s*map_lock\s*\)"
+UNLOCK = r"(?:pthread_)?mutex_unlock\s*\(\s*&\s*map_lock\s*\)"
 DECL = re.compile(r"(static\s+[\w:<>,\s\*]+\s+|IPhreeqc::)(Instances|InstancesIndex)\s*(=\s*0\s*)?;")
+
+
+def match_brace(s, i):
+    d = 0
+    while i < len(s):
+        d += s[i] == "{"
+        d -= s[i] == "}"
+        i += 1
+        if d == 0:
+            return i
+    return len(s)
+
+
+def lock_aliases(src):
+    """other spellings of taking / releasing map_lock defined in this file: a function whose whole body is the lock (or the
+    unlock) call, and a guard class whose constructor locks and whose destructor unlocks (RAII). Returns
+    (lock function names, unlock function names, guard class names, source with those definitions blanked out)"""
+    locks, unlocks, guards = set(), set(), set()
+    blank = lambda a, b, t: t[:a] + re.sub(r"[^\n]", " ", t[a:b]) + t[b:]
+    for m in list(re.finditer(r"\b(?:struct|class)\s+(\w+)[^;{]*\{", src)):
+        e = match_brace(src, m.end() - 1)
+        body, n = src[m.end():e - 1], m.group(1)
+        c = re.search(r"\b" + n + r"\s*\([^)]*\)\s*(?::[^{]*)?\{\s*" + LOCK + r"\s*;\s*\}", body)
+        d = re.search(r"~\s*" + n + r"\s*\(\s*(?:void)?\s*\)\s*\{\s*" + UNLOCK + r"\s*;\s*\}", body)
+        if c and d:
+            guards.add(n)
+            src = blank(m.start(), e, src)
+    for m in list(re.finditer(r"\b([\w:]+)\s*\(\s*(?:void)?\s*\)\s*(?:const\s*)?\{\s*(" + LOCK + "|" + UNLOCK + r")\s*;\s*\}", src)):
+        name = m.group(1).split("::")[-1]
+        (locks if re.match(LOCK, m.group(2)) else unlocks).add(name)
+        src = blank(m.start(), m.end(), src)
+    return locks, unlocks, guards, src
 
 
 def registry_sites(repo):
     sites = []
     files = [f for f in sorted((repo / "src").rglob("*")) if f.suffix in (".cpp", ".cxx", ".h", ".hpp", ".hxx", ".c")]
+    texts = {}
+    locks, unlocks, guards = set(), set(), set()
     for f in files:
         raw = f.read_text(errors="replace")
-        if "Instances" not in raw:
+        if "Instances" not in raw and "map_lock" not in raw:
             continue
         src = strip_c(raw)
+        l, u, g, src = lock_aliases(src)
+        locks |= l
+        unlocks |= u
+        guards |= g
+        texts[f] = src
+    lock_re = "|".join([LOCK] + [r"\b" + n + r"\s*\(\s*\)" for n in sorted(locks)])
+    unlock_re = "|".join([UNLOCK] + [r"\b" + n + r"\s*\(\s*\)" for n in sorted(unlocks)])
+    guard_re = "|".join(r"\b" + n + r"\s+\w+\s*(?:\(\s*\)|\{\s*\})?\s*;" for n in sorted(guards)) or r"(?!x)x"
+    tok = re.compile(f"(?P<lock>{lock_re})|(?P<unlock>{unlock_re})|(?P<guard>{guard_re})|(?P<acc>\\bInstancesIndex\\b|\\bInstances\\b)|(?P<ret>\\breturn\\b)|(?P<br>[{{}}])")
+    import bisect
+    for f, src in texts.items():
+        if "Instances" not in src:
+            continue
         # blank out the declarations / definitions of the two static members
         src = DECL.sub(lambda m: " " * len(m.group(0)), src)
         depth, locked, func = 0, False, "?"
-        lines = src.split("\n")
-        last_sig = "?"
-        pos_line = []
-        off = 0
-        for ln, l in enumerate(lines, 1):
-            pos_line.append((off, ln))
+        guard_depth = None          # depth of the block whose end releases a guard object
+        starts, off = [], 0
+        for l in src.split("\n"):
+            starts.append(off)
             off += len(l) + 1
-        import bisect
-        starts = [p for p, _ in pos_line]
-
-        def line_of(p):
-            return pos_line[bisect.bisect_right(starts, p) - 1][1]
-        for m in TOK.finditer(src):
-            t = m.group(0)
+        line_of = lambda p: bisect.bisect_right(starts, p)
+        rel = str(f.relative_to(repo))
+        for m in tok.finditer(src):
             ln = line_of(m.start())
-            if t == "{":
+            k = m.lastgroup
+            if k == "br" and m.group(0) == "{":
                 if depth == 0:
                     # the signature is the text between the previous ';' or '}' and this brace
-                    k = max(src.rfind(";", 0, m.start()), src.rfind("}", 0, m.start()))
-                    sig = " ".join(src[k + 1:m.start()].split())
+                    j = max(src.rfind(";", 0, m.start()), src.rfind("}", 0, m.start()))
+                    sig = " ".join(src[j + 1:m.start()].split())
                     mm = re.search(r"([\w:~]+)\s*\([^()]*\)\s*(const)?\s*(:.*)?$", sig)
                     func = mm.group(1) if mm else (sig[-60:] or "?")
                 depth += 1
-            elif t == "}":
+            elif k == "br":
                 depth -= 1
                 if depth < 0:
                     raise RuntimeError(f"lock audit: unbalanced braces in {f}")
+                if guard_depth is not None and depth < guard_depth:
+                    locked, guard_depth = False, None
                 if depth == 0 and locked:
-                    sites.append((str(f.relative_to(repo)), ln, func, "exit-locked", False))
+                    sites.append((rel, ln, func, "exit-locked", False))
                     locked = False
-            elif t.startswith("mutex_lock"):
+            elif k == "lock":
                 if locked:
-                    sites.append((str(f.relative_to(repo)), ln, func, "double-lock", False))
+                    sites.append((rel, ln, func, "double-lock", False))
                 locked = True
-            elif t.startswith("mutex_unlock"):
-                locked = False
-            elif t == "return":
+            elif k == "guard":
                 if locked:
-                    sites.append((str(f.relative_to(repo)), ln, func, "exit-locked", False))
+                    sites.append((rel, ln, func, "double-lock", False))
+                locked, guard_depth = True, depth
+            elif k == "unlock":
+                locked = False
+            elif k == "ret":
+                if locked and guard_depth is None:
+                    sites.append((rel, ln, func, "exit-locked", False))
             else:
                 if depth == 0:
-                    raise RuntimeError(f"lock audit: unrecognised file-scope use of {t} at {f}:{ln}")
-                sites.append((str(f.relative_to(repo)), ln, func, t, locked))
+                    # a use at file scope we do not understand: recorded as an unguarded site rather than aborting the audit
+                    sites.append((rel, ln, "<file scope>", m.group(0), False))
+                else:
+                    sites.append((rel, ln, func, m.group(0), locked))
     if not any(s[3] in ("Instances", "InstancesIndex") for s in sites):
         raise RuntimeError("lock audit: no access to the instance registry found (code shape changed)")
     return sites
